@@ -109,30 +109,41 @@ Proof.
     destruct ok; [|auto 10]. rewrite (H2 eq_refl). auto 10.
   - (* OKeys *) rewrite El. auto 10.
   - (* OStatus *) rewrite <- (rel_flags L F leqb leqb_spec st m s R). auto 10.
-  - (* OGet: only where it cannot meet a placeholder *)
+  - (* OGet: as found only where it cannot meet a placeholder; through _extract_loc everywhere *)
     cbn [BusSpec.s_dom_op] in Dom. rewrite <- El in *.
     destruct (mem l (mb_labels L F m)) eqn:Q; cbn [negb orb] in Dom.
-    + apply andb_true_iff in Dom as [Dc Dm]. apply (mem_In L leqb leqb_spec) in Q.
+    + apply (mem_In L leqb leqb_spec) in Q.
       destruct (find_idx_In L leqb leqb_spec l _ Q) as [i Fi]. rewrite Fi.
-      assert (Emp : mb_mp L F m = None) by (rewrite (R_mp _ _ _ _ _ _ R); destruct (sb_mp L s); [discriminate | reflexivity]).
-      (* the specification loads through the ordinary selection; the label is held, so nothing changes but the order *)
-      pose proof (select_sim L F leqb leqb_spec st m s (KLabel L l) false R Sok Mok) as H.
-      unfold m_select, s_select in H. rewrite <- El in H. cbn [BusSpec.resolve] in H. rewrite Fi in H.
-      unfold s_select. rewrite <- El. cbn [BusSpec.resolve]. rewrite Fi.
-      unfold m_extract, Bus.m_update in H. rewrite Emp in H. cbn [is_some negb andb] in H.
-      assert (Eld : nth i (mb_loaded L F m) false = true).
-      { rewrite <- (isld_nth L leqb leqb_spec _ _ i l Nl (find_idx_Some L leqb leqb_spec l _ i Fi)).
-        apply (R_cache _ _ _ _ _ _ R), (mem_In L leqb leqb_spec), Dc. }
-      assert (Eload : (if mb_loaded_all L F m then false else negb (forallb (fun p => nth p (mb_loaded L F m) false) [i])) = false).
-      { destruct (mb_loaded_all L F m); [reflexivity|]. cbn. rewrite Eld. reflexivity. }
-      rewrite Eload in H. cbn [negb andb] in H.
-      destruct (s_access_all L leqb (s_coherent st) (sb_mp L s) (sb_cache L s) (labels_at (mb_labels L F m) [i])) as [ok c].
-      destruct ok; cbn [negb] in *.
-      * destruct H as (H1 & H2 & H3). unfold Bus.slots_at in H1. cbn in H1.
-        destruct (nth_error (mb_slots L F m) i) as [sl|] eqn:E; cbn in H1 |- *; auto 10.
-      * destruct H as (H1 & _). discriminate.
+      destruct get_loads.
+      * pose proof (select_sim L F leqb leqb_spec st m s (KLabel L l) false R Sok Mok) as H.
+        destruct (m_select L F leqb st m (KLabel L l) false) as [[x m'] lg].
+        destruct (s_select L F leqb st s (KLabel L l) false) as [y s'].
+        destruct H as (H1 & H2 & H3). auto 10.
+      * apply andb_true_iff in Dom as [Dc Dm].
+        assert (Emp : mb_mp L F m = None) by (rewrite (R_mp _ _ _ _ _ _ R); destruct (sb_mp L s); [discriminate | reflexivity]).
+        (* the specification loads through the ordinary selection; the label is held, so nothing changes but the order *)
+        pose proof (select_sim L F leqb leqb_spec st m s (KLabel L l) false R Sok Mok) as H.
+        unfold m_select, s_select in H. rewrite <- El in H. cbn [BusSpec.resolve] in H. rewrite Fi in H.
+        unfold s_select. rewrite <- El. cbn [BusSpec.resolve]. rewrite Fi.
+        unfold m_extract, Bus.m_update in H. rewrite Emp in H. cbn [is_some negb andb] in H.
+        assert (Eld : nth i (mb_loaded L F m) false = true).
+        { rewrite <- (isld_nth L leqb leqb_spec _ _ i l Nl (find_idx_Some L leqb leqb_spec l _ i Fi)).
+          apply (R_cache _ _ _ _ _ _ R), (mem_In L leqb leqb_spec), Dc. }
+        assert (Eload : (if mb_loaded_all L F m then false else negb (forallb (fun p => nth p (mb_loaded L F m) false) [i])) = false).
+        { destruct (mb_loaded_all L F m); [reflexivity|]. cbn. rewrite Eld. reflexivity. }
+        rewrite Eload in H. cbn [negb andb] in H.
+        destruct (s_access_all L leqb (s_coherent st) (sb_mp L s) (sb_cache L s) (labels_at (mb_labels L F m) [i])) as [ok c].
+        destruct ok; cbn [negb] in *.
+        -- destruct H as (H1 & H2 & H3). unfold Bus.slots_at in H1. cbn in H1.
+           destruct (nth_error (mb_slots L F m) i) as [sl|] eqn:E; cbn in H1 |- *; auto 10.
+        -- destruct H as (H1 & _). discriminate.
     + apply (mem_false L leqb leqb_spec) in Q. rewrite (proj2 (find_idx_None L leqb leqb_spec l _) Q). auto 10.
-  - (* OIterElem: only when everything is held and no LRU order exists *)
+  - (* OIterElem: as found only when everything is held and no LRU order exists; through self.values everywhere *)
+    destruct iter_element_loads.
+    { pose proof (values_sim L F leqb leqb_spec st m s R Sok Mok) as H.
+      destruct (m_values L F leqb st m) as [[[e vs] m'] lg]. destruct (s_all L F leqb st s) as [ok s'].
+      destruct H as (H1 & H2 & H3 & H4 & H5 & _). subst e. rewrite <- El.
+      destruct ok; [|auto 10]. rewrite (H2 eq_refl). auto 10. }
     cbn [BusSpec.s_dom_op] in Dom. apply andb_true_iff in Dom as [Dm Da].
     assert (Emp : mb_mp L F m = None) by (rewrite (R_mp _ _ _ _ _ _ R); destruct (sb_mp L s); [discriminate | reflexivity]).
     pose proof (values_sim L F leqb leqb_spec st m s R Sok Mok) as H.
@@ -147,6 +158,12 @@ Proof.
     destruct (s_all L F leqb st s) as [ok s']. destruct H as (H1 & H2 & H3 & H4 & H5 & _).
     destruct ok; [|discriminate]. rewrite (H2 eq_refl), El. auto 10.
   - (* OIterItems *)
+    destruct iter_element_items_loads.
+    { pose proof (values_sim L F leqb leqb_spec st m s R Sok Mok) as H.
+      destruct (m_values L F leqb st m) as [[[e vs] m'] lg]. destruct (s_all L F leqb st s) as [ok s'].
+      destruct H as (H1 & H2 & H3 & H4 & H5 & _). subst e. rewrite <- El.
+      destruct ok; [|auto 10]. rewrite (H2 eq_refl).
+      split; [|auto 10]. f_equal. clear. induction (mb_labels L F m) as [|x r IH]; cbn; [reflexivity | f_equal; exact IH]. }
     cbn [BusSpec.s_dom_op] in Dom. apply andb_true_iff in Dom as [Dm Da].
     assert (Emp : mb_mp L F m = None) by (rewrite (R_mp _ _ _ _ _ _ R); destruct (sb_mp L s); [discriminate | reflexivity]).
     pose proof (values_sim L F leqb leqb_spec st m s R Sok Mok) as H.
@@ -216,16 +233,15 @@ Proof.
     specialize (H2 eq_refl). specialize (H6 Emp eq_refl).
     rewrite <- El.
     set (labels := mb_labels L F m) in *.
-    set (keyS := fun l => match eager st l with Some f => fkey f | None => 0 end).
     set (kvM := map (fun x : L * option F => (x, match snd x with Some f => fkey f | None => 0 end)) (combine labels vs)).
     set (h := fun p : (L * option F) * Z => (fst (fst p), snd p)).
-    assert (EkvS : map (fun l => (l, keyS l)) labels = map h kvM).
-    { unfold kvM. rewrite map_map. rewrite H2. clear. unfold h, keyS. cbn.
+    assert (EkvS : map (fun l => (l, match eager st l with Some f => fkey f | None => 0 end)) labels = map h kvM).
+    { unfold kvM. rewrite map_map. rewrite H2. clear. unfold h. cbn.
       induction labels as [|x r IH]; cbn; [reflexivity | f_equal; exact IH]. }
     assert (Hsort : isort (fun (a0 b : L * Z) => snd a0 <=? snd b) (map h kvM)
                     = map h (isort (fun (a0 b : (L * option F) * Z) => snd a0 <=? snd b) kvM))
       by (apply isort_map; reflexivity).
-    assert (Efst : map fst (sort_by_key asc kvM) = sort_by_key asc (map (fun l => (l, keyS l)) labels)).
+    assert (Efst : map fst (sort_by_key asc kvM) = sort_by_key asc (map (fun l => (l, match eager st l with Some f => fkey f | None => 0 end)) labels)).
     { unfold sort_by_key. rewrite EkvS, Hsort.
       destruct asc; [|rewrite <- map_rev]; rewrite !map_map; reflexivity. }
     assert (Fs : Forall (fun p => snd p = slot_of (mb_labels L F m1) (mb_slots L F m1) (fst p)) (sort_by_key asc kvM)).
@@ -240,14 +256,26 @@ Proof.
                 (if asc then isort (fun a b => snd a <=? snd b) kvM else rev (isort (fun a b => snd a <=? snd b) kvM))) as F1.
       { destruct asc; [apply isort_Forall, F0 | apply Forall_rev', isort_Forall, F0]. }
       rewrite Forall_forall in F1. apply (F1 q Iq). }
-    rewrite (map_snd_of_Forall _ _ Fs), Efst.
-    set (ls' := sort_by_key asc (map (fun l => (l, keyS l)) labels)).
-    destruct (bus_result_sim L F leqb leqb_spec st m1 s1 ls' (map (slot_of (mb_labels L F m1) (mb_slots L F m1)) ls') into R1) as (B1 & B2 & B3).
-    { eapply Permutation_NoDup; [symmetry; apply sort_by_key_perm|]. rewrite map_map. cbn. rewrite map_id. exact Nl. }
-    { intros x I. rewrite El1. eapply Permutation_in in I; [|apply sort_by_key_perm]. rewrite map_map in I. cbn in I. rewrite map_id in I. exact I. }
-    { reflexivity. }
-    destruct (m_bus_result L F m1 ls' _ into) as [x m']. unfold s_bus_result in *. cbn [fst snd] in *.
-    split; [exact B1|]. split; [reflexivity|]. split; [exact B2|]. split; [exact Sok|]. split; [congruence | reflexivity].
+    rewrite Efst.
+    remember (sort_by_key asc (map (fun l => (l, match eager st l with Some f => fkey f | None => 0 end)) labels)) as ls' eqn:Els'.
+    assert (Hperm : Permutation ls' labels).
+    { rewrite Els', sort_by_key_perm, map_map. cbn. rewrite map_id. reflexivity. }
+    assert (Nls : NoDup ls') by (eapply Permutation_NoDup; [symmetry; exact Hperm | exact Nl]).
+    assert (Incl : incl ls' (mb_labels L F m1)) by (intros x I; rewrite El1; eapply Permutation_in; eassumption).
+    destruct (bus_result_sim L F leqb leqb_spec st m1 s1 ls' (map (slot_of (mb_labels L F m1) (mb_slots L F m1)) ls') into R1 Nls Incl eq_refl)
+      as (B1 & B2 & B3).
+    destruct sort_values_from_own_series.
+    + (* the Bus's own Series reindexed in the sorted order *)
+      destruct (find_all_spec ls' (mb_labels L F m1) (mb_slots L F m1) (R_nodup _ _ _ _ _ _ R1) (R_len _ _ _ _ _ _ R1)) as [Fa1 _].
+      destruct Fa1 as (ps & E1 & E2).
+      { apply forallb_forall. intros x I. apply (mem_In L leqb leqb_spec), Incl, I. }
+      rewrite E1, E2.
+      destruct (m_bus_result L F m1 ls' _ into) as [x m']. unfold s_bus_result in *. cbn [fst snd] in *.
+      split; [exact B1|]. split; [reflexivity|]. split; [exact B2|]. split; [exact Sok|]. split; [congruence | reflexivity].
+    + (* as found: the sorted Series of Frames; without max_persist it holds the same slots *)
+      rewrite (map_snd_of_Forall _ _ Fs), Efst.
+      destruct (m_bus_result L F m1 ls' _ into) as [x m']. unfold s_bus_result in *. cbn [fst snd] in *.
+      split; [exact B1|]. split; [reflexivity|]. split; [exact B2|]. split; [exact Sok|]. split; [congruence | reflexivity].
   - (* OFile: the file is never put back *)
     cbn [BusSpec.s_dom_op] in Dom.
     split; [reflexivity|]. split; [reflexivity|]. split; [apply rel_file; assumption|].
